@@ -361,17 +361,23 @@ def examine_declarative(ctx, rng):
             {'type': 'line', 'direction': 'left'}, {'type': 'ground'}],
             'solution': {'type': 'dc', 'precision': p, 'voltages': [{'name': 'R1'}, {'name': 'R2', 'reverse': True}],
                          'currents': [{'name': 'R1'}, {'name': 'V', 'reverse': True}], 'powers': [{'name': 'R2'}]}}
+        import copy
+        before = copy.deepcopy(desc)
+
+        def label_texts(sch):
+            texts = {}
+            for e in sch.elements:
+                for cls, tag in ((elm.VoltageLabel, 'v'), (elm.CurrentLabel, 'i'), (elm.PowerLabel, 'p')):
+                    if isinstance(e, cls):
+                        labs = [l.label for l in getattr(e, '_userlabels', [])]
+                        texts.setdefault(tag, []).append(labs[0] if labs else None)
+            return texts
         try:
             sch = create_schematic(desc)
         except Exception as e:  # noqa: BLE001
-            ctx.violation(f'C14:create_schematic-raises-{type(e).__name__}', str(e)[:120], {'description': desc})
+            ctx.violation(f'C14:create_schematic-raises-{type(e).__name__}', str(e)[:120], {'description': before})
             continue
-        texts = {}
-        for e in sch.elements:
-            for cls, tag in ((elm.VoltageLabel, 'v'), (elm.CurrentLabel, 'i'), (elm.PowerLabel, 'p')):
-                if isinstance(e, cls):
-                    labs = [l.label for l in getattr(e, '_userlabels', [])]
-                    texts.setdefault(tag, []).append(labs[0] if labs else None)
+        texts = label_texts(sch)
         i = V / (R1 + R2)           # source + at its start (bottom), current flows up through the source ... magnitudes suffice here
         want = {'v': [abs(i) * R1, abs(i) * R2], 'i': [abs(i), abs(i)], 'p': [i * i * R2]}
         rep = {'description': desc, 'texts': texts}
@@ -384,6 +390,30 @@ def examine_declarative(ctx, rng):
                 r = parse_real(g, unit)
                 if r is None or r[0] == 'inf' or not within(wv, abs(float(r[0])), p):
                     ctx.violation('C14:declarative-label-inaccurate', f'{g!r} vs magnitude {wv} (precision {p})', rep)
+        # signed: every requested label must carry the text the adapter computes for that element and direction
+        try:
+            from CircuitCalculator.SimpleCircuit import DiagramSolution as ds
+            ad = ds.real_solution(sch, precision=p).solution
+            sd = before['solution']
+            expect = {'v': [ad.get_voltage(name=e['name'], reverse=e.get('reverse', False)) for e in sd['voltages']],
+                      'i': [ad.get_current(name=e['name'], reverse=e.get('reverse', False)) for e in sd['currents']],
+                      'p': [ad.get_power(name=e['name'], reverse=e.get('reverse', False)) for e in sd['powers']]}
+            for tag in ('v', 'i', 'p'):
+                if texts.get(tag, []) != expect[tag]:
+                    ctx.violation('C14:declarative-label-differs-from-adapter', f'{tag}: the schematic shows {texts.get(tag)}, the adapter computes '
+                                  f'{expect[tag]} for the requested elements and directions', rep)
+        except Exception as e:  # noqa: BLE001
+            ctx.violation(f'C14:declarative-adapter-raises-{type(e).__name__}', str(e)[:120], rep)
+        # the description is data: it must be unchanged, and building it again must give the same labels
+        if desc != before:
+            ctx.violation('C14:create_schematic-mutates-description', f'description after the call: {desc}', {'description': before})
+        else:
+            try:
+                again = label_texts(create_schematic(desc))
+                if again != texts:
+                    ctx.violation('C14:second-create_schematic-differs', f'first {texts}, second {again}', {'description': before})
+            except Exception as e:  # noqa: BLE001
+                ctx.violation(f'C14:second-create_schematic-raises-{type(e).__name__}', str(e)[:120], {'description': before})
         plt.close('all')
 
 
